@@ -84,6 +84,18 @@ def _cases(tier, rng):
         prog = progs.gen_map_program(rng, n_funcs=rng.randint(1, 3))
         yield {"prog": prog, "cfg": rng.choice(("thread/nofolder-mix", "shuffle-random/nofolder-mix", "async-thread/nofolder-mix")),
                "seed": rng.randrange(10**6)}
+    # no run folder and an in-memory backend, with worker processes: the value of a function without a MapSpec exists
+    # only in the parent's memory, and a later function reads it from there
+    want1, tries = (4 if tier == "quick" else 40), 0
+    while want1 and tries < 20000:
+        tries += 1
+        prog = progs.gen_map_program(rng, n_funcs=rng.randint(2, 3), allow_generator=False)
+        whole = {o for f in prog["funcs"] if f.get("spec") is None for o in f["outputs"]}
+        if not any(p_ in whole for f in prog["funcs"] for p_ in f["params"]):
+            continue
+        want1 -= 1
+        for cfg in ("process/dict-nofolder", "thread/dict-nofolder", "async-process/dict-nofolder"):
+            yield {"prog": prog, "cfg": cfg, "seed": rng.randrange(10**6)}
     # mapped axes of length zero (nothing to compute along them; every backend stores and returns empty arrays)
     want0, tries = (8 if tier == "quick" else 80), 0
     while want0 and tries < 20000:
@@ -159,6 +171,8 @@ def _check(case):
             ek, storage = c.split("/")
             executor = _mk_executor(ek, seed)
             exs = [executor]
+            if storage == "dict-nofolder":  # results only ever live in the parent's memory
+                storage, run_folder = "dict", None
             if storage == "nofolder-mix":
                 storage = {"": "dict"}
                 f0 = prog["funcs"][seed % len(prog["funcs"])]
